@@ -45,6 +45,12 @@ def menu(d):
     M["ok_inc_file"] = ("load", os.path.join(d, "main_ok.xbb"))
     M["bad_lex"] = ("loads", H + "int n = 7\n$\n")
     M["bad_syntax"] = ("loads", H + "int n = 7\nG( | 0\n")
+    # scripts whose evaluation goes through process-wide numeric settings: singular but valid values, failing divisions
+    M["ok_singular"] = ("loads", H + "float x = 0.0\nG(log(x), x**-1, arctanh(1), 1/x) | 0\n")
+    M["ok_overflow"] = ("loads", H + "G(exp(1000), 2.0**2000, 10**400/10**399) | 0\n")
+    M["bad_div_str"] = ("loads", H + "str s = \"a\"\nfloat y = 1/s\n")
+    M["bad_div_array"] = ("loads", H + "int array A =\n    1, 0\nG(1/A) | 0\n")
+    M["bad_div_in_loop"] = ("loads", H + "for int i in [1, 0]\n    G(1/i) | i\nG(1/0.0, q0/0) | u\n")
     M["bad_first_token"] = ("loads", "foo name a\nversion 1.0\nG | 0\n")
     M["bad_empty"] = ("loads", "")
     M["bad_no_name"] = ("loads", "version 1.0\nG | 0\n")
